@@ -26,6 +26,8 @@ pub enum Cond {
 #[derive(Clone, Debug, PartialEq, Eq, Hash, PartialOrd, Ord)]
 pub enum Op {
     New(usize),
+    /// element of a member type created inside the model element with the given handle: `new_<type>(parent)`
+    NewIn(usize, usize),
     NewEnum(usize, usize, Vec<usize>),
     Define(usize, Vec<usize>),
     Insert(usize, Vec<usize>),
@@ -39,6 +41,7 @@ impl Op {
         let hs = |v: &Vec<usize>| v.iter().map(|h| format!("h{h}")).collect::<Vec<_>>().join(",");
         match self {
             Op::New(t) => format!("new_{}()", snake(&th.types[*t].name)),
+            Op::NewIn(t, p) => format!("new_{}(h{p})", snake(&th.types[*t].name)),
             Op::NewEnum(t, c, a) => format!("new_{}({}({}))", snake(&th.types[*t].name), th.rels[*c].name, hs(a)),
             Op::Define(r, a) => format!("define_{}({})", th.rels[*r].name, hs(a)),
             Op::Insert(r, a) => format!("insert_{}({})", th.rels[*r].name, hs(a)),
@@ -56,6 +59,7 @@ impl Op {
     pub fn to_json(&self) -> Value {
         match self {
             Op::New(t) => json!({"op":"new","ty":t}),
+            Op::NewIn(t, p) => json!({"op":"new_in","ty":t,"parent":p}),
             Op::NewEnum(t, c, a) => json!({"op":"new_enum","ty":t,"ctor":c,"args":a}),
             Op::Define(r, a) => json!({"op":"define","rel":r,"args":a}),
             Op::Insert(r, a) => json!({"op":"insert","rel":r,"args":a}),
@@ -75,6 +79,7 @@ impl Op {
         let vs = |x: &Value| x.as_array().unwrap().iter().map(|y| y.as_u64().unwrap() as usize).collect::<Vec<_>>();
         match v["op"].as_str().unwrap() {
             "new" => Op::New(us(&v["ty"])),
+            "new_in" => Op::NewIn(us(&v["ty"]), us(&v["parent"])),
             "new_enum" => Op::NewEnum(us(&v["ty"]), us(&v["ctor"]), vs(&v["args"])),
             "define" => Op::Define(us(&v["rel"]), vs(&v["args"])),
             "insert" => Op::Insert(us(&v["rel"]), vs(&v["args"])),
@@ -165,6 +170,7 @@ impl<'a> Run<'a> {
         let res = catch_unwind(AssertUnwindSafe(|| -> Option<u32> {
             match op {
                 Op::New(t) => Some(self.model.new_el(*t)),
+                Op::NewIn(t, p) => Some(self.model.new_member(*t, self.handles[*p].1)),
                 Op::NewEnum(t, c, a) => { let ids = self.ids(a); Some(self.model.new_enum(*t, *c, &ids)) }
                 Op::Define(r, a) => { let ids = self.ids(a); Some(self.model.define(*r, &ids)) }
                 Op::Insert(r, a) => { let ids = self.ids(a); self.model.insert(*r, &ids); None }
@@ -178,7 +184,17 @@ impl<'a> Run<'a> {
         };
         match op {
             Op::New(t) => { self.handles.push((*t, ret.unwrap())); self.assertions.push(Assertion::New { ty: *t }); self.dirty_since_close = true; }
+            Op::NewIn(t, p) => {
+                // new_<type>(parent) = a fresh element plus the membership fact
+                let h = self.handles.len();
+                self.handles.push((*t, ret.unwrap()));
+                self.assertions.push(Assertion::New { ty: *t });
+                self.assertions.push(Assertion::Insert { rel: th.types[*t].membership.expect("member type"), args: vec![*p, h] });
+                self.dirty_since_close = true;
+            }
             Op::NewEnum(t, c, a) => { self.handles.push((*t, ret.unwrap())); self.assertions.push(Assertion::Define { rel: *c, args: a.clone() }); self.dirty_since_close = true; }
+            // (for a function whose result type is a member type, "f(args) is defined" includes that the value lives in
+            // its natural parent: the reference chase adds that, see refsem::natural_parent_facts)
             Op::Define(r, a) => { let ty = *th.rels[*r].arity.last().unwrap(); self.handles.push((ty, ret.unwrap())); self.assertions.push(Assertion::Define { rel: *r, args: a.clone() }); self.dirty_since_close = true; }
             Op::Insert(r, a) => { self.assertions.push(Assertion::Insert { rel: *r, args: a.clone() }); self.dirty_since_close = true; }
             Op::Equate(t, a, b) => { self.assertions.push(Assertion::Equate { ty: *t, a: *a, b: *b }); self.dirty_since_close = true; }
@@ -284,7 +300,7 @@ fn tuples_over(handles: &[(usize, u32)], tys: &[usize]) -> Vec<Vec<usize>> {
 
 pub fn menu(th: &Theory, run: &Run, b: &Bounds, explored_ops: &[Op]) -> Vec<Op> {
     let mut m = Vec::new();
-    let n_new = |t: usize| explored_ops.iter().filter(|o| matches!(o, Op::New(x) if *x == t)).count();
+    let n_new = |t: usize| explored_ops.iter().filter(|o| matches!(o, Op::New(x) | Op::NewIn(x, _) if *x == t)).count();
     let n_def = explored_ops.iter().filter(|o| matches!(o, Op::Define(..) | Op::NewEnum(..))).count();
     let n_close = explored_ops.iter().filter(|o| matches!(o, Op::Close | Op::CloseUntil(_))).count();
     // facts: unary, then wider
@@ -315,7 +331,11 @@ pub fn menu(th: &Theory, run: &Run, b: &Bounds, explored_ops: &[Op]) -> Vec<Op> 
     // over the prelude's elements have been explored first
     let mut news = Vec::new();
     for (ti, t) in th.types.iter().enumerate() {
-        if t.kind != TypeKind::Enum && n_new(ti) < b.extra_new { news.push(Op::New(ti)); }
+        if t.kind == TypeKind::Enum || n_new(ti) >= b.extra_new { continue; }
+        match t.member_of {
+            None => news.push(Op::New(ti)),
+            Some(m) => for (hi, h) in run.handles.iter().enumerate() { if h.0 == m { news.push(Op::NewIn(ti, hi)); } }
+        }
     }
     if n_close < b.max_closes {
         m.push(Op::Close);
@@ -340,20 +360,65 @@ pub fn menu(th: &Theory, run: &Run, b: &Bounds, explored_ops: &[Op]) -> Vec<Op> 
         }
     }
     m.extend(news);
+    // Member types are dependent types: `x: m.S` is a typing judgement that the generated API cannot enforce.
+    // The explored inputs respect it (an element lives in the model element it was created in): no direct writes to
+    // the membership predicate or to a morphism-application graph (define_ is the API for that), member relations
+    // only on members of the receiver, f@x only for x in dom(f), equations only between members of the same parents.
+    if th.types.iter().any(|t| t.member_of.is_some()) {
+        let mut member: HashSet<(usize, usize)> = HashSet::new();
+        let mut dom_of: HashMap<usize, Vec<usize>> = HashMap::new();
+        for a in &run.assertions {
+            if let Assertion::Insert { rel, args } = a {
+                if th.types.iter().any(|t| t.membership == Some(*rel)) { member.insert((args[0], args[1])); }
+                if th.rels[*rel].mor_sig.as_deref() == Some("dom") { dom_of.entry(args[0]).or_default().push(args[1]); }
+            }
+        }
+        let is_member_ty = |t: usize| th.types[t].member_of.is_some();
+        let parents = |h: usize| -> Vec<usize> { let mut v: Vec<usize> = member.iter().filter(|(_, x)| *x == h).map(|(p, _)| *p).collect(); v.sort(); v };
+        let well_typed = |r: usize, args: &[usize]| -> bool {
+            let rel = &th.rels[r];
+            if th.types.iter().any(|t| t.membership == Some(r)) { return false; }
+            if rel.mor_app {
+                return args.len() == 2 && dom_of.get(&args[0]).map_or(false, |ds| ds.iter().any(|d| member.contains(&(*d, args[1]))));
+            }
+            if rel.member_of.is_some() {
+                return (1..args.len()).all(|i| !is_member_ty(rel.arity[i]) || member.contains(&(args[0], args[i])));
+            }
+            (0..args.len()).all(|i| !is_member_ty(rel.arity[i]))
+        };
+        m.retain(|op| match op {
+            Op::Insert(r, a) => !th.rels[*r].mor_app && well_typed(*r, a),
+            Op::Define(r, a) => well_typed(*r, a),
+            Op::Equate(t, a, b) => !is_member_ty(*t) || parents(*a) == parents(*b),
+            Op::CloseUntil(Cond::Holds(r, a)) => th.types.iter().any(|t| t.membership == Some(*r)) || well_typed(*r, a),
+            Op::CloseUntil(Cond::Defined(r, a)) => well_typed(*r, a),
+            _ => true,
+        });
+    }
     m
 }
 
 /// Creation-only prefixes from which the search starts.
 pub fn preludes(th: &Theory, b: &Bounds) -> Vec<Vec<Op>> {
     let mut out = Vec::new();
+    // elements of member types are created inside the model elements made so far, dealt round-robin
+    fn add_members(th: &Theory, p: &mut Vec<Op>, count: &dyn Fn(usize) -> usize) {
+        for (ti, t) in th.types.iter().enumerate() {
+            let m = match t.member_of { Some(m) => m, None => continue };
+            let parents: Vec<usize> = p.iter().enumerate().filter(|(_, o)| matches!(o, Op::New(x) if *x == m)).map(|(i, _)| i).collect();
+            if parents.is_empty() { continue; }
+            for j in 0..count(ti) { p.push(Op::NewIn(ti, parents[j % parents.len()])); }
+        }
+    }
     let counts: Vec<usize> = if b.prelude_elems >= 2 { vec![b.prelude_elems, 1] } else { vec![b.prelude_elems] };
     for n in counts {
         let mut p = Vec::new();
+        let k_of = |ti: usize| th.meta.get("prelude").and_then(|m| m.get(&th.types[ti].name)).and_then(|x| x.as_u64()).map(|x| x as usize).unwrap_or(n);
         for (ti, t) in th.types.iter().enumerate() {
-            if t.kind == TypeKind::Enum { continue; }
-            let k = th.meta.get("prelude").and_then(|m| m.get(&t.name)).and_then(|x| x.as_u64()).map(|x| x as usize).unwrap_or(n);
-            for _ in 0..k { p.push(Op::New(ti)); }
+            if t.kind == TypeKind::Enum || t.member_of.is_some() { continue; }
+            for _ in 0..k_of(ti) { p.push(Op::New(ti)); }
         }
+        add_members(th, &mut p, &k_of);
         if !out.contains(&p) { out.push(p); }
     }
     // theories with a model declaration: additional start states in which a morphism chain is already in place
@@ -367,7 +432,7 @@ pub fn preludes(th: &Theory, b: &Bounds) -> Vec<Vec<Op>> {
             let mut objs = Vec::new();
             let mut mors = Vec::new();
             for (ti, t) in th.types.iter().enumerate() {
-                if t.kind == TypeKind::Enum { continue; }
+                if t.kind == TypeKind::Enum || t.member_of.is_some() { continue; }
                 let k = if ti == obj_ty { n_obj } else if ti == mor_ty { n_obj - 1 } else { n_other };
                 for _ in 0..k {
                     if ti == obj_ty { objs.push(p.len()); }
@@ -375,6 +440,8 @@ pub fn preludes(th: &Theory, b: &Bounds) -> Vec<Vec<Op>> {
                     p.push(Op::New(ti));
                 }
             }
+            // member types: n_obj elements, one per object (two in the first object when there are two objects)
+            add_members(th, &mut p, &|_| if n_obj == 2 { 3 } else { n_obj });
             for (i, &m) in mors.iter().enumerate() {
                 p.push(Op::Insert(dom, vec![m, objs[i]]));
                 p.push(Op::Insert(cod, vec![m, objs[i + 1]]));
@@ -489,6 +556,7 @@ pub fn explore_theory(th: &Theory, make: fn() -> Box<dyn DynModel>, b: &Bounds, 
                     Some(a) => {
                         let mut asserts = base.assertions.clone();
                         asserts.push(a);
+                        if let Op::NewIn(t, p) = op { asserts.push(Assertion::Insert { rel: th.types[*t].membership.unwrap(), args: vec![*p, base.handles.len()] }); }
                         match chase(th, &asserts, oracles.elem_cap, oracles.round_cap, true) {
                             Ok(ch) => morphism_graph_acyclic(th, &ch.structure),
                             Err(_) => false,
@@ -612,7 +680,7 @@ pub fn explore_theory(th: &Theory, make: fn() -> Box<dyn DynModel>, b: &Bounds, 
 
 pub fn op_assertion(op: &Op) -> Option<Assertion> {
     match op {
-        Op::New(t) => Some(Assertion::New { ty: *t }),
+        Op::New(t) | Op::NewIn(t, _) => Some(Assertion::New { ty: *t }),
         Op::NewEnum(_, c, a) => Some(Assertion::Define { rel: *c, args: a.clone() }),
         Op::Define(r, a) => Some(Assertion::Define { rel: *r, args: a.clone() }),
         Op::Insert(r, a) => Some(Assertion::Insert { rel: *r, args: a.clone() }),
